@@ -3,7 +3,7 @@
    for every order / shape / rank / weights / factors, with no size bound. *)
 From Coq Require Import List Arith ZArith Reals Bool Ring Lia.
 From TLV Require Import Base.Shape Base.PyList Base.Tensor Base.BigSum Base.Ops Model.Errors
-     Proofs.ErrorsProofs Proofs.ErrorsSkeleton.
+     Proofs.ErrorsProofs Proofs.ErrorsSkeleton Proofs.ErrorsSkeletonCP Proofs.ErrorsP2.
 Import ListNotations.
 
 (* squared-error expansion over an arbitrary index space:  sum (X - Y)^2 = sum X^2 + sum Y^2 - 2 sum X Y *)
@@ -93,6 +93,78 @@ Theorem C06_skeleton_normalize_before_error_refuted :
 Proof. exact skeleton_normalize_before_refuted. Qed.
 Print Assumptions C06_skeleton_normalize_before_error_refuted.
 
+(* cp_normalize, ring form: rescaling the columns of every factor and letting the weights absorb the scales does not
+   change any entry of the represented tensor (every order, shape, rank) *)
+Theorem C06_cp_rescaling_preserves_tensor : forall (F : Type) (Op : fops F),
+  ring_theory (f0 Op) (f1 Op) (fadd Op) (fmul Op) (fsub Op) (fopp Op) (@eq F) ->
+  forall (s : list nat) (R : nat) (w w' : nat -> F) (cols cols' : nat -> list (nat -> F)) (ds : nat -> list F),
+  (forall r, r < R -> length (cols r) = length s) ->
+  (forall r, r < R -> scaled Op (cols r) (cols' r) (ds r)) ->
+  (forall r, r < R -> w' r = fmul Op (w r) (prodF Op (ds r))) ->
+  forall idx, inb s idx -> cp_entry Op R w' cols' idx = cp_entry Op R w cols idx.
+Proof. exact @cp_entry_rescale. Qed.
+Print Assumptions C06_cp_rescaling_preserves_tensor.
+
+(* skeleton + algebra composed: over every commutative ring, for every order / shape / data tensor / rank, every update
+   rule, line-search behaviour and stopping sequence (oracle), every normalisation that is a rescaling, and both ways of
+   carrying the weights (in the MTTKRP: parafac, MU, HALS;  outside: constrained_parafac):  every value the MTTKRP shortcut
+   (or the explicit residual of a line-search / callback step) reports along the loop IS the squared residual, recomputed
+   from scratch, of the iterate it is reported with, and the last reported value is that of the returned iterate.
+   Hypotheses on the configuration: the remembered MTTKRP is paired with the LAST UPDATED mode, which is a mode of the tensor. *)
+Theorem C06_cp_loop_reports_true_errors : forall (F : Type) (Op : fops F),
+  ring_theory (f0 Op) (f1 Op) (fadd Op) (fmul Op) (fsub Op) (fopp Op) (@eq F) ->
+  forall (s : list nat) (X : list nat -> F) (R : nat) (weighted_mttkrp : bool) (Orc : oracle blk) (C : config),
+  (forall st, rescaling Op s R st (normalized Orc st)) ->
+  well_formed C -> last (modes C) 0 < length s ->
+  forall (n : nat) (init : blocks blk),
+  let l := run (cp_fast Op s X R weighted_mttkrp) (cp_err2 Op s X R) Orc C n init in
+  Forall (good_event blk F F (cp_err2 Op s X R) (fun e => e)) (trace l) /\
+  last_report_ok blk F F (cp_err2 Op s X R) (fun e => e) l /\
+  last (trace l) EBreak = EReturn (cur l).
+Proof. exact @cp_loop_reports_true_errors. Qed.
+Print Assumptions C06_cp_loop_reports_true_errors.
+
+(* PARAFAC2: the slice-wise expansion of _parafac2_reconstruction_error (norm_X^2 - 2 sum_i tr(B_i^T X_i C) + sum_i
+   sum((B_i^T B_i) * C^T C)) is the squared residual sum_i || X_i - B_i C^T ||^2 from scratch, B_i = (P_i B) * A[i];
+   any number of slices of any heights, any rank, projections NOT assumed orthonormal; both ways of forming B_i^T X_i *)
+Theorem C06_parafac2_error_identity : forall (F : Type) (Op : fops F),
+  ring_theory (f0 Op) (f1 Op) (fadd Op) (fmul Op) (fsub Op) (fopp Op) (@eq F) ->
+  forall (I K Rk : nat) (J : nat -> nat) (X P : nat -> nat -> nat -> F) (A Bm C : nat -> nat -> F),
+  p2_err2_fast Op I K Rk J X P A Bm C (p2_tmp Op Rk J X P A Bm) = p2_err2_true Op I K Rk J X P A Bm C /\
+  p2_err2_fast Op I K Rk J X P A Bm C (p2_tmp_proj Op Rk J X P A Bm) = p2_err2_true Op I K Rk J X P A Bm C.
+Proof. intros F Op Rth I K Rk J X P A Bm C. split; [apply p2_err2_fast_correct | apply p2_err2_fast_proj_correct]; exact Rth. Qed.
+Print Assumptions C06_parafac2_error_identity.
+
+(* PARAFAC2 loop with Bro's line search, the code as it is (recompute = false): a rejected jump leaves the previous
+   iterate's error as the last reported value although the freshly updated iterate is returned *)
+Theorem C06_parafac2_skeleton_refuted :
+  exists (Or : p2oracle nat) (n : nat) (init : nat),
+    (forall st, p2_norm Or st = st) /\ (0 < n) /\
+    ~ p2_last_ok (fun st : nat => st) (p2_loop (fun st => st) Or true false false n 0 init []).
+Proof. exact p2_skeleton_refuted. Qed.
+Print Assumptions C06_parafac2_skeleton_refuted.
+(* what does hold for every oracle and every number of iterations: without line search, or when every jump is accepted,
+   or with the candidate repair (error recomputed after a rejected jump), the last reported value belongs to the returned iterate *)
+Theorem C06_parafac2_skeleton_partial : forall (St E : Type) (err : St -> E) (Or : p2oracle St) (ls normalize recompute : bool),
+  (forall st, err (p2_norm Or st) = err st) ->
+  ls = false \/ recompute = true \/ (forall it, p2_accept Or it = true) ->
+  forall (n : nat) (init : St), 0 < n ->
+  p2_last_ok err (p2_loop err Or ls normalize recompute n 0 init []).
+Proof. exact @p2_skeleton_partial. Qed.
+Print Assumptions C06_parafac2_skeleton_partial.
+
+(* HOOI under a mask, the code as it is: the tensor is imputed at the start of the iteration but norm_tensor is the norm
+   of the original tensor; the reported quantity is neither the residual w.r.t. the imputed tensor the core was computed
+   from nor the residual w.r.t. the original tensor.  (With the norm of the imputed tensor it is the former:
+   C06_hooi_error_identity applied to the imputed tensor.) *)
+Theorem C06_hooi_masked_stale_norm_refuted :
+  exists (s rs : list nat) (X X' G : list nat -> Z) (us : list (nat -> nat -> Z)),
+    orthonormal Zops s rs us /\ (forall j, inb rs j -> G j = project Zops s X' us j) /\
+    hooi_err2 Zops s rs X G <> dist2 Zops s X' (tucker_entry Zops rs G us) /\
+    hooi_err2 Zops s rs X G <> dist2 Zops s X (tucker_entry Zops rs G us).
+Proof. exact hooi_masked_stale_norm_refuted. Qed.
+Print Assumptions C06_hooi_masked_stale_norm_refuted.
+
 (* ---- non-vacuity: the hypotheses are satisfiable and the model computes *)
 Example C06_ring_Z : ring_theory (f0 Zops) (f1 Zops) (fadd Zops) (fmul Zops) (fsub Zops) (fopp Zops) (@eq Z).
 Proof. exact Zth. Qed.
@@ -119,3 +191,27 @@ Proof.
   simpl. repeat split; intros a b Ha Hb;
     repeat (destruct a as [|a]; [|try lia]); repeat (destruct b as [|b]; [|try lia]); try lia; vm_compute; reflexivity.
 Qed.
+
+(* the composed theorem is not vacuous: a sign-flipping "normalisation" on Z is a rescaling, and a concrete run of the
+   skeleton over Z (2x2 data, rank 1, line search + callback + normalisation) reports the residuals of its iterates *)
+Example C06_cp_loop_nonvacuous :
+  let s := [2;2] in let X := tfun Zops (mk [2;2] [1;2;3;4]%Z) in
+  let flip : blocks (@blk Z) -> blocks (@blk Z) := fun st k i r => if (k =? 0) || (k =? 2) then (- st k i r)%Z else st k i r in
+  let Orc := mkOracle (fun it m st i r => (Z.of_nat (it + m + i) + 1)%Z) flip (fun it _ st => st) (fun _ => true) (fun _ => false) (fun _ => false) in
+  let C := mkConfig [0;1] 1 true false false true true true in
+  let init : blocks (@blk Z) := fun _ _ _ => 1%Z in
+  (forall st, rescaling Zops s 1 st (normalized Orc st)) /\ well_formed C /\
+  errs (run (cp_fast Zops s X 1 true) (cp_err2 Zops s X 1) Orc C 2 init) = [7; 549]%Z.
+Proof.
+  cbv zeta. split; [|split; [repeat split; discriminate | vm_compute; reflexivity]].
+  intros st. exists (fun _ => [-1; 1]%Z). split; intros r Hr.
+  - cbn. repeat split; intros i; match goal with |- context [st ?a ?b ?c] => destruct (st a b c) end; reflexivity.
+  - unfold w_of. cbn. rewrite Z.mul_comm. cbn. reflexivity.
+Qed.
+(* PARAFAC2 identity on a concrete instance over Z: 2 slices of heights 2 and 3, rank 2, non-orthonormal projections *)
+Example C06_parafac2_nonvacuous :
+  let slices := [mk [2;2] [1;2;3;4]%Z; mk [3;2] [1;0;2;1;0;3]%Z] in
+  let Ps := [mk [2;2] [1;1;0;1]%Z; mk [3;2] [1;0;0;1;1;1]%Z] in
+  let A := mk [2;2] [1;2;1;1]%Z in let B := mk [2;2] [1;0;1;1]%Z in let C := mk [2;2] [1;1;0;1]%Z in
+  p2_all Zops slices (Some [2;1]%Z) A B C Ps = (61, 61, 61, 45)%Z.
+Proof. vm_compute. reflexivity. Qed.
